@@ -272,6 +272,21 @@ def object_oracle(res, rng, s, parts, tier):
             live.append((whole, 'whole', wrots))
             res.evaluations += 1
             res.count('object_split_k%d' % k)
+            if rng.random() < 0.6:
+                # queries before the split (some are refused on a disconnected complex): what was asked before, and whether
+                # it was refused, has no influence on the components split() yields
+                for q in rng.sample(['loop', 'connected', 'exterior', 'enclosed', 'pairs', 'strands', 'dlc'], rng.randint(1, 4)):
+                    try:
+                        if q == 'loop': whole.get_loop_index((0, 0))
+                        elif q == 'connected': whole.is_connected
+                        elif q == 'exterior': whole.exterior_domains
+                        elif q == 'enclosed': whole.enclosed_domains
+                        elif q == 'pairs': list(whole.pair_table)
+                        elif q == 'strands': list(whole.strand_table)
+                        else: whole.is_domainlevel_complement
+                    except Exception as e:
+                        e = None
+                res.count('queried_before_split')
             partial = bool((sum(sub) + int(collide)) % 2)
             if partial:
                 # an abandoned first iteration must not influence later calls (it may consume an automatic name)
